@@ -124,7 +124,7 @@ def classify_loops(run, f, t, ctxinfo, kmax, counts):
             it = node[2]
             counts["loops"] += 1
             # iteration over a finite collection / the argument list
-            if isinstance(it, tuple) and it and it[0] == "call" and isinstance(it[1], str) and (it[1].endswith("iter::IntoIterator>::into_iter") or it[1] in ("[T]::iter", "Vec::iter")):
+            if isinstance(it, tuple) and it and it[0] == "call" and isinstance(it[1], str) and (it[1] == "iter" or it[1].endswith("iter::IntoIterator>::into_iter")):
                 run.ob(True, "loop|%s|for-collection|%d" % (key0, counts["loops"]), "C02 L1", f.key, distinct="loop|%s|for-collection" % key0, sample={"fn": key0, "loop": "for x in <collection>", "class": "L1 bounded by the collection length"} if counts["loops"] < 4 else None)
                 counts["L1"] += 1
                 return
@@ -474,6 +474,7 @@ def main(tier):
         return run.finish("loop/recursion obligations", "./check C02 --tier %s" % tier)
     from ..canary import loop_canary
     loop_canary(run)
+    walkers = set()
     reach = F.scope()
     kmax = []
     counts = defaultdict(int)
@@ -511,8 +512,8 @@ def main(tier):
                 continue
             if g.kind == "Closure":
                 continue
-            is_eval = g.key.endswith("::ast::eval")
-            t = m.tb.fn_term(g, inline_pure=True, eval_fn=(g.path if is_eval else None))
+            is_eval = m.tb.eval_fn() is not None and g.path == m.tb.eval_fn().path
+            t = m.tb.fn_term(g, inline_pure=True, eval_fn=(m.tb.eval_names() if is_eval else None))
             info = {"MC": MC, "param_literals": plits if g.key.endswith("function_static_arguments") else {}}
             before = counts["loops"]
             classify_loops(run, g, t, info, kmax, counts)
@@ -533,10 +534,13 @@ def main(tier):
         if ef is not None:
             bad = []
             nrec = 0
+            wn = m.tb.eval_names()
+            rec_names = {"Ast." + p_.split("::")[-1] for p_ in (wn if isinstance(wn, tuple) else (wn,))} | {"Ast.eval"}
+            walkers.update(wn if isinstance(wn, tuple) else (wn,))
             for ctor, a in m.tb.eval_arms().items():
                 binders = set()
                 for s in subterms(a["term"]):
-                    if isinstance(s, tuple) and s and s[0] == "for" and M(("call", "<Vec<Node> as iter::IntoIterator>::into_iter", ("C0",)), s[2]) is not None:
+                    if isinstance(s, tuple) and s and s[0] == "for" and M(("call", "iter", ("C0",)), s[2]) is not None:
                         e = M(("bind", "?b"), s[1])
                         if e:
                             binders.add(e["?b"])
@@ -548,7 +552,11 @@ def main(tier):
                                 if e2:
                                     binders.add(e2["?b"])
                 for s in subterms(a["term"]):
-                    if isinstance(s, tuple) and ((len(s) == 2 and s[0] == "ev") or (len(s) == 3 and s[0] == "call" and s[1] == "Ast.eval")):
+                    if isinstance(s, tuple) and len(s) >= 2 and s[0] == "call" and s[1] not in rec_names:
+                        hf = m.tb.resolve_local(s[1])
+                        if hf is not None and ef.path in F.reach([hf.path]):
+                            bad.append("%s: recursion through %s, which could not be inlined" % (ctor, s[1]))
+                    if isinstance(s, tuple) and ((len(s) == 2 and s[0] == "ev") or (len(s) == 3 and s[0] == "call" and s[1] in rec_names)):
                         nrec += 1
                         x = s[-1]
                         if not (isinstance(x, tuple) and ((re.match(r"^C\d+$", str(x[0])) and len(x) == 1) or (x[0] == "var" and x[1] in binders))):
@@ -600,7 +608,11 @@ def main(tier):
                 kinds.add("derived")
             elif "::parser::Parser" in f.key or (f.kind == "Closure" and "::parser::" in f.key):
                 kinds.add("parser")
-            elif f.key.endswith("::ast::eval") or (f.kind == "Closure" and "::ast::eval" in f.key):
+            elif f.path in walkers or (f.kind == "Closure" and f.parent in walkers):
+                kinds.add("eval")
+            elif any(p_ in walkers for p_ in comp) and f.evaluator and "::parser::" not in f.key and "::tokenizer::" not in f.key:
+                # a helper through which eval recurses: covered by the arm-level rule above (the helper is inlined
+                # into the arms; a helper that could not be inlined is reported there)
                 kinds.add("eval")
             else:
                 kinds.add("other:" + f.key)
